@@ -124,7 +124,15 @@ pub fn forests(thorough: bool) -> (Vec<Vec<V>>, Value) {
     // level 1 over the small menu
     let l1 = containers(&small, 3);
     // containers over the FULL atom menu in every child position
-    values.extend(containers(&full, if thorough { 3 } else { 2 }));
+    values.extend(containers(&full, 2));
+    if thorough {
+        // three children: the full menu minus the long strings (two representatives of those stay)
+        let reduced: Vec<V> = full.iter().filter(|v| match v {
+            V::Str(t) => t.len() <= 300 || *t == "x".repeat(65535) || *t == format!("a{}", "\u{1D11E}".repeat(1100)),
+            _ => true,
+        }).cloned().collect();
+        values.extend(containers(&reduced, 3).into_iter().filter(|v| match v { V::Arr(k) => k.len() == 3, V::Obj(k) => k.len() == 3, _ => false }));
+    }
     values.extend(l1.iter().cloned());
     // level 1 with one focus child from the full atom menu / full name menu, other child small
     for a in full.iter() {
